@@ -367,7 +367,8 @@ static void runL2m(const plan::Plan& p, hz::RunResult* res, bool verbose) {
   } else {
     // C17: fairness of the poll sequence against the stride scheduling bounds
     std::map<std::string, int> prio;       // current priority per message (reference bookkeeping from the plan)
-    for (auto& l : p.lines) if (l.kind == "refpoll") prio[l.get("name")] = static_cast<int>(l.num("p"));
+    std::set<std::string> condRef;
+    for (auto& l : p.lines) if (l.kind == "refpoll") { prio[l.get("name")] = static_cast<int>(l.num("p")); if (l.num("cond", 0)) condRef.insert(l.get("name")); }
     // windows without perturbation
     std::vector<std::string> window;
     std::map<std::string, int> winPrio = prio;
@@ -390,6 +391,12 @@ static void runL2m(const plan::Plan& p, hz::RunResult* res, bool verbose) {
         }
       }
       // enrolled = positive priority
+      // a message referenced by a condition is polled with a priority the statement does not fix: if any is present,
+      // only the universal starvation bound is applied to this window
+      bool hasCondRef = false;
+      for (auto& a : pr) if (condRef.count(a.first)) hasCondRef = true;
+      for (auto& e : cnt) if (condRef.count(e.first)) hasCondRef = true;
+      if (hasCondRef) return;
       for (auto& a : pr) {
         if (a.second <= 0) continue;
         size_t bound = 1;
@@ -420,6 +427,36 @@ static void runL2m(const plan::Plan& p, hz::RunResult* res, bool verbose) {
         }
       }
     };
+    // universal bound, valid under any sequence of priority changes: a message that stays enrolled (priority > 0, or
+    // referenced by a condition) is selected again within 40 x (number of enrolled messages) selections
+    {
+      std::map<std::string, int> pr = prio;
+      std::map<std::string, size_t> since;      // selections since the last selection (or enrolment) per enrolled message
+      for (auto& l : p.lines) if (l.kind == "refpoll" && l.num("cond", 0)) pr[l.get("name")] = std::max(pr[l.get("name")], 1);
+      for (auto& e : pr) if (e.second > 0) since[e.first] = 0;
+      for (const Op& o : ops) {
+        if (o.kind == "poll" && !o.polled.empty()) {
+          size_t enrolled = since.size();
+          for (auto& sn : since) {
+            if (sn.first == o.polled) { sn.second = 0; continue; }
+            sn.second++;
+            if (sn.second > 40 * std::max<size_t>(enrolled, 1) + 20) {
+              char buf[200];
+              snprintf(buf, sizeof(buf), "message %s stayed enrolled but was not selected for %zu selections (%zu messages enrolled)", sn.first.c_str(), sn.second, enrolled);
+              res->violate("C17", "starvation", "enrolled-but-never-selected", buf);
+              sn.second = 0;
+            }
+          }
+        } else if (o.kind == "setprio") {
+          int np = static_cast<int>(o.l.num("p"));
+          std::string n = o.l.get("msg");
+          if (np > 0 && !since.count(n)) since[n] = 0;
+          if (np <= 0) since.erase(n);
+        } else if (o.kind == "load" && o.l.has("name") && o.l.num("p") > 0) {
+          since[o.l.get("name")] = 0;
+        }
+      }
+    }
     size_t settleLen = 0;
     for (const Op& o : ops) {
       if (o.kind == "poll") {
@@ -522,7 +559,21 @@ static plan::Plan genC13(uint64_t seed, const std::string& tier) {
     }
     if (wantBad && i == 0) {
       // an unresolvable condition: unknown field name, wrong kind, or unknown message
-      int bk = static_cast<int>(r.below(3));
+      int bk = static_cast<int>(r.below(4));
+      bool allNum = true, allStr = true;
+      for (bool q : m.num) { if (q) allStr = false; else allNum = false; }
+      if (bk == 3 && (allNum || allStr)) {
+        // no field name, and the message has no field of the kind the values ask for
+        field = "";
+        values = allNum ? "'abc'" : "5";
+        numeric = !allNum;
+        p.add("def l=*[" + name + "],cir," + m.name + ",,,," + values);
+        p.add("refcond name=" + name + " msg=" + m.name + " field= values=" + values);
+        condNames.push_back(name);
+        condNumeric.push_back(numeric);
+        continue;
+      }
+      if (bk == 3) bk = 0;
       if (bk == 0) { field = "nofield"; if (values.empty()) values = "1"; }
       else if (bk == 1 && !values.empty()) {
         // require the other kind than the named field has
@@ -619,14 +670,32 @@ static plan::Plan genC17(uint64_t seed, const std::string& tier) {
     p.add("refpoll name=" + name + " p=" + std::to_string(prio));
     names.push_back(name);
   }
+  if (r.chance(0.25)) {
+    // a message without own priority that is referenced by a condition must get polled as well
+    p.add("def l=r,cir,cref,,,08,b509,0d5100,,,UCH");
+    p.add("refpoll name=cref p=0 cond=1");
+    p.add("def l=*[cc],cir,cref,,,,1");
+    p.add("def l=[cc]r,cir,cguarded,,,08,b509,0d5101,,,UCH");
+    p.add("refpoll name=cguarded p=0");
+  }
   int phases = 1 + static_cast<int>(r.below(4));
   int opIdx = 0;
   int lateCount = 0;
+  bool toggling = r.chance(0.3);
+  std::string toggleMsg = names[r.below(static_cast<uint32_t>(names.size()))];
+  int toggleEvery = 1 + static_cast<int>(r.below(12));
+  int toggleA = 1 + static_cast<int>(r.below(9)), toggleB = 1 + static_cast<int>(r.below(9));
   for (int ph = 0; ph < phases; ph++) {
     int polls = 150 + static_cast<int>(r.below(tier == "thorough" ? 1500 : 500));
     for (int k = 0; k < polls; k++) {
       p.add("op poll t=b" + std::string(opIdx ? " after=" + std::to_string(opIdx - 1) : ""));
       opIdx++;
+      if (toggling && (k % toggleEvery) == toggleEvery - 1) {
+        // two clients asking for different priorities of the same message again and again
+        snprintf(buf, sizeof(buf), "op setprio t=m msg=%s p=%d front=0 after=%d", toggleMsg.c_str(), ((k / toggleEvery) & 1) ? toggleA : toggleB, opIdx - 1);
+        p.add(buf);
+        opIdx++;
+      }
       if (r.chance(0.05)) {
         static const int steps[] = {0, 1000, 3000};
         p.add("op advance t=b ms=" + std::to_string(steps[r.below(3)]) + " after=" + std::to_string(opIdx - 1));
